@@ -430,7 +430,7 @@ func init() {
 	register(&Property{
 		ID:    "C09",
 		Level: "proof",
-		Rules: []Rule{{"A-who", ruleAWho}, {"A-tool", ruleATool}, {"A-src", ruleASrc}, {"A-off", ruleAOff}, {"A-mono", ruleAMono}, {"A-trunc", ruleATruncWho}, {"O3", ruleO3}, {"O5", ruleO5}, {"G1", ruleG1}},
+		Rules: []Rule{{"A-who", ruleAWho}, {"A-tool", ruleATool}, {"A-src", ruleASrc}, {"A-off", ruleAOff}, {"A-mono", ruleAMono}, {"A-trunc", ruleATruncWho}, {"O3", ruleO3}, {"O5", ruleO5}, {"G1", ruleG1}, {"O3c", ruleO3c}},
 		Explanation: "Who-may-call proof over the whole-program call graph of /repo's current source: no exported read-style API (open, lookups, visits, iterators, eviction, snapshot, close, collection management, JSON, stats) can reach a WriteAt or Truncate file sink on any call path; Truncate is reachable from FlushRevert only, behind the read-only test and only after a successful scan, with the scanned size as argument; in CopyTo every call on a source-derived receiver is read-style; every WriteAt offset is an atomic load of Store.size plus non-negative terms, and on the write path Store.size is only ever set to (loaded size + non-negative length). The graph over-approximates all call paths (static + CHA + lexical closure attribution; callback points are user code). Not decided: that Store.size at open equals the end of the last durable root record (value-level premise, structural part is atom A9 of C03).",
 		Assumptions: []string{"user-supplied callbacks and StoreFile implementations are outside the library", "function values flow only into calls (checked: A-closed)", "no reflection/unsafe beyond the allowed set (checked: A-closed)"},
 		Trusted:     []string{"non-negativity lattice: len/cap/copy, non-negative constants, unsigned widening, sums/products"},
